@@ -176,6 +176,7 @@ class Ctx:
             res["depth"] = int(m.group(1))
         res["violated"] = re.findall(r"Error: Invariant (\S+) is violated", out) + \
             re.findall(r"Error: Action property (\S+) is violated", out) + \
+            re.findall(r"Temporal property (\S+) (?:was|is) violated", out) + \
             (["<temporal>"] if "Temporal properties were violated" in out else [])
         res["postcondition_false"] = bool(re.search(r"[Pp]ostcondition.*(is false|violated)", out))
         res["completed"] = "Model checking completed" in out or "Finished in" in out
